@@ -227,9 +227,13 @@ const c19Lifetime = 3 * time.Second
 // and returns violations, the number of conclusive and skipped observations.
 func c19RunSchedule(s c19Schedule, base int64) (viol []string, conclusive, skipped int) {
 	st := metrics.NewStats()
-	key := "verif.window"
-	if err := st.VerifRegisterWindow(key, c19Lifetime); err != nil {
-		return []string{err.Error()}, 0, 0
+	// three sampled metrics live in the one Stats (the server registers several): each gets the same timing and its
+	// own values, and each is checked on its own - what is exported for one must not depend on the others
+	keys := []string{"verif.window", "verif.other", "a.third"}
+	for _, key := range keys {
+		if err := st.VerifRegisterWindow(key, c19Lifetime); err != nil {
+			return []string{err.Error()}, 0, 0
+		}
 	}
 	t0 := time.Now()
 	type ev struct {
@@ -253,7 +257,9 @@ func c19RunSchedule(s c19Schedule, base int64) (viol []string, conclusive, skipp
 		if e.add {
 			v := base + int64(len(adds)) + 1 // unique, never zero
 			a := c19Add{value: v, start: time.Since(t0)}
-			st.AddSample(key, v)
+			for k, key := range keys {
+				st.AddSample(key, v+int64(k)*1000000)
+			}
 			a.end = time.Since(t0)
 			adds = append(adds, a)
 			continue
@@ -264,9 +270,7 @@ func c19RunSchedule(s c19Schedule, base int64) (viol []string, conclusive, skipp
 		// classify every sample added so far
 		var must []int64
 		either := false
-		known := map[int64]bool{}
 		for _, a := range adds {
-			known[a.value] = true
 			switch {
 			case oe < a.start+c19Lifetime:
 				must = append(must, a.value) // cannot have expired yet
@@ -281,21 +285,24 @@ func c19RunSchedule(s c19Schedule, base int64) (viol []string, conclusive, skipp
 			continue
 		}
 		conclusive++
-		mn, mx, avg := got[key+".min"], got[key+".max"], got[key+".avg"]
-		if len(must) == 0 {
-			if mn != 0 || mx != 0 || avg != 0 {
-				viol = append(viol, fmt.Sprintf("%s at %v: all samples expired but min/max/avg = %d/%d/%d", s.Name, os.Round(time.Millisecond), mn, mx, avg))
-			}
-			continue
-		}
 		sort.Slice(must, func(i, j int) bool { return must[i] < must[j] })
-		var sum int64
-		for _, v := range must {
-			sum += v
-		}
-		wantAvg := sum / int64(len(must))
-		if mn != must[0] || mx != must[len(must)-1] || avg != wantAvg {
-			viol = append(viol, fmt.Sprintf("%s at %v: live samples %v (min %d max %d avg %d) but exported min/max/avg = %d/%d/%d", s.Name, os.Round(time.Millisecond), must, must[0], must[len(must)-1], wantAvg, mn, mx, avg))
+		for k, key := range keys {
+			off := int64(k) * 1000000
+			mn, mx, avg := got[key+".min"], got[key+".max"], got[key+".avg"]
+			if len(must) == 0 {
+				if mn != 0 || mx != 0 || avg != 0 {
+					viol = append(viol, fmt.Sprintf("%s at %v: all samples of %s expired but min/max/avg = %d/%d/%d", s.Name, os.Round(time.Millisecond), key, mn, mx, avg))
+				}
+				continue
+			}
+			var sum int64
+			for _, v := range must {
+				sum += v + off
+			}
+			wantAvg := sum / int64(len(must))
+			if mn != must[0]+off || mx != must[len(must)-1]+off || avg != wantAvg {
+				viol = append(viol, fmt.Sprintf("%s at %v: metric %s (one of %d sampled metrics in the Stats) has live samples %v+%d (min %d max %d avg %d) but exported min/max/avg = %d/%d/%d", s.Name, os.Round(time.Millisecond), key, len(keys), must, off, must[0]+off, must[len(must)-1]+off, wantAvg, mn, mx, avg))
+			}
 		}
 	}
 	return viol, conclusive, skipped
